@@ -96,7 +96,12 @@ def form_gen(rng, tid, boundary):
             if k < 0.5: parts += [(name, 'second.bin', 'image/png', b'2')]; parts.sort(key=lambda p: p[0] != name); expected = 'error'
             else: parts = [p for p in parts if p[0] != name] + [(name, None, None, b'text')]; expected = 'error'
         else: expected = expected          # no mismatch injected for this field type
-    if rng.random() < 0.15 and expected != 'error': parts.insert(rng.choice([0, len(parts)]), ('unknown', None, None, b'ignored'))      # not between two files of one name
+    if rng.random() < 0.25 and expected != 'error':          # a field the target type does not know is skipped whatever it holds (not placed between two files of one name)
+        unk = rng.choice([[('unknown', None, None, b'ignored')], [('unknown', None, None, b'a'), ('unknown', None, None, b'b')], [('other', 'u.bin', 'image/png', b'zz')],
+                          [('other', 'u1.bin', 'image/png', b'zz'), ('other', 'u2.bin', 'text/plain', b'')], [('other', '', 'application/octet-stream', b'')],
+                          [('unknown', None, None, b't'), ('other', 'u1', 'a/b', b'1'), ('other', 'u2', 'a/b', b'2'), ('other', 'u3', 'a/b', b'3')]])
+        at = rng.choice([0, len(parts)])
+        parts[at:at] = unk
     return parts, expected
 
 
